@@ -1193,8 +1193,15 @@ rrul_fill_mly(echs_instant_t *restrict tgt, size_t nti, rrulsp_t rr)
 		tmp = echs_shift_dvalue(rr->shift) +
 			echs_shift_bvalue(rr->shift) * 7 / 5;
 
-		m -= tmp-- > 0;
-		m -= tmp / 30;
+		if (tmp > 0) {
+			/* start early, dates shifted forward may reach us */
+			m -= 1 + --tmp / 30;
+		} else if (tmp < -62) {
+			/* start late, dates shifted backward can't reach us,
+			 * be conservative, months have up to 31 days and the
+			 * held-back occurrence of a refill is shifted already */
+			m += -tmp / 31 - 1;
+		}
 		y -= m <= 0;
 		m += m > 0 ? 0 : 12;
 		m = m > 0 ? m : 1;
